@@ -206,14 +206,15 @@ def _call(c):
             arr = bits if (rule % 2 == 0) else np.array(bits)     # both list and ndarray forms
             return int(cpl.binary_rule(n, arr, scheme=NKS() if form == "bits_nks" else None))
         if form in ("pow_nks", "pow_default"):
-            p = np.array([2 ** (w - 1 - i) for i in range(w)])
+            p = [2 ** (w - 1 - i) for i in range(w)]            # the docstring's own form is a plain list
+            p = [p, tuple(p), np.array(p), np.array(p)][(int(rule) + w) % 4]
             if rule % 2 == 0:
                 return int(cpl.binary_rule(n, rule, scheme=NKS() if form == "pow_nks" else None, powers_of_two=p))
             return int(cpl.BinaryRule(rule, scheme=NKS() if form == "pow_nks" else None, powers_of_two=p)(n, 0, 1))
     if k == "brx":
         n = np.array(c["n"])
         rule = c["rulebits"] if "rulebits" in c else c["rule"]
-        p = None if c.get("pow") is None else np.array(c["pow"])
+        p = None if c.get("pow") is None else [list(c["pow"]), np.array(c["pow"]), tuple(c["pow"])][len(c["pow"]) % 3]
         return int(cpl.binary_rule(n, rule, scheme=(NKS() if c["scheme"] == "nks" else None), powers_of_two=p))
     raise ValueError(k)
 
